@@ -10,7 +10,7 @@ from vf.ref import cksum as CK
 ID = "C20"
 LEVEL = "exploration"
 RULE = ("processor cases = (generated TinyRV0 program, data image, mngr2proc values, timing config "
-        "{src_delay, sink_delay in 0..15, mem_stall_prob in {0,.3,.5,.6}, mem_latency 1..5}, seeds); "
+        "{src_delay, sink_delay in 0..15, mem_stall_prob in {0,.3,.5,.6}, mem_latency 1..5}, seeds); programs mix ALU/load/store/csr items with RAW chains, loops, forward branches, taken branches placed right behind stalling csrw/lw instructions with a non-idempotent target, and (about one program in ten) taken branches more than 2 KiB forwards and backwards; "
         "each case is run on ProcFL, ProcCL and ProcRTL in the repo's TestHarness and compared with the "
         "independent interpreter (proc2mngr sequence checked by the sink, whole 1 MB memory image read "
         "back).  non-trivial = the executed path has >=1 taken branch, >=1 load-use (distance 1) or "
